@@ -135,3 +135,27 @@ fn c10_add_constant() {
     if n >= 2 { assert!(word(c.constants[1]) == word(e1)); }
     assert!(c.instructions.len() == 0);
 }
+
+fn trace_contract(_gc: &mut GC, _o: Object) {}
+/// O10.1f [bounded: pool of one float constant, ALL pairs of f64 bit patterns] a float literal is stored in (or
+/// merged into) a slot whose value is IEEE-equal to it - two different float literals never share a slot
+#[kani::proof]
+#[kani::unwind(5)]
+#[kani::stub(Object::as_str_unchecked, as_str_contract)]
+#[kani::stub(GC::trace, trace_contract)]
+fn c10_add_constant_float() {
+    let mut c = compiler_with(vec![]);
+    let (x, y): (f64, f64) = (kani::any(), kani::any());
+    kani::assume(!x.is_nan() && !y.is_nan());
+    kani::cover!(x == y);
+    kani::cover!(x != y);
+    let mut gc = ManuallyDrop::new(GC::new());
+    let (e0, obj) = (Object::float(x, &mut gc), Object::float(y, &mut gc));
+    c.constants = Vec::with_capacity(4);
+    c.constants.push(e0);
+    let idx = match &*ManuallyDrop::new(c.add_constant(obj)) { Ok(i) => *i as usize, Err(_) => { assert!(false); 0 } };
+    assert!(idx < c.constants.len());
+    assert!(c.constants[idx].tag() == crate::object::Type::Float);
+    assert!(c.constants[idx].as_f64() == y);
+    assert!(c.constants[0].as_f64().to_bits() == x.to_bits());
+}
